@@ -1603,7 +1603,15 @@ func init() {
 		var recvs []string
 		for _, dir := range []string{"", "proxy", "proxy/tcp"} {
 			for _, f := range x.files(dir) {
+				// innermost enclosing function (declaration or literal) of every node: a local that is assigned
+				// `route.GetTable()` in the SAME function as the lookup is the table fetched for that lookup
+				var stack []ast.Node
 				ast.Inspect(f, func(n ast.Node) bool {
+					if n == nil {
+						stack = stack[:len(stack)-1]
+						return true
+					}
+					stack = append(stack, n)
 					call, ok := n.(*ast.CallExpr)
 					if !ok {
 						return true
@@ -1613,7 +1621,30 @@ func init() {
 						return true
 					}
 					if (se.Sel.Name == "Lookup" && len(call.Args) == 6) || (se.Sel.Name == "LookupHost" && len(call.Args) == 2) {
-						recvs = append(recvs, x.src(se.X))
+						recv := x.src(se.X)
+						if id, ok := se.X.(*ast.Ident); ok {
+							var fn ast.Node
+							for i := len(stack) - 1; i >= 0 && fn == nil; i-- {
+								switch stack[i].(type) {
+								case *ast.FuncLit, *ast.FuncDecl:
+									fn = stack[i]
+								}
+							}
+							if fn != nil {
+								ast.Inspect(fn, func(m ast.Node) bool {
+									if lit, ok := m.(*ast.FuncLit); ok && m != fn && !(lit.Pos() <= call.Pos() && call.End() <= lit.End()) {
+										return false
+									}
+									if as, ok := m.(*ast.AssignStmt); ok && len(as.Lhs) == 1 && len(as.Rhs) == 1 && as.Pos() < call.Pos() {
+										if l, ok := as.Lhs[0].(*ast.Ident); ok && l.Name == id.Name && x.src(as.Rhs[0]) == "route.GetTable()" {
+											recv = "route.GetTable()"
+										}
+									}
+									return true
+								})
+							}
+						}
+						recvs = append(recvs, recv)
 					}
 					return true
 				})
